@@ -188,6 +188,18 @@ def replay(prop, path):
     return 0
 
 
+def _out(*a):
+    """print that survives a closed pipe (./check ... | head): the verdict is the exit code and the evidence file"""
+    try:
+        print(*a)
+        sys.stdout.flush()
+    except BrokenPipeError:
+        try:
+            sys.stdout = open(os.devnull, 'w')
+        except OSError:
+            pass
+
+
 def run(prop, tier):
     from . import findings
     t0 = time.time()
@@ -278,7 +290,7 @@ def run(prop, tier):
     kmap = dict((e['id'], e) for e in data['known'])
     for kid, (cnt, first) in sorted(hit.items()):
         e = kmap[kid]
-        print('KNOWN-FINDING: property=%s %s [%s %s; %d case(s), e.g. %s]' % (
+        _out('KNOWN-FINDING: property=%s %s [%s %s; %d case(s), e.g. %s]' % (
             prop, e.get('what'), kid, e.get('sub'), cnt, json.dumps(first['case'], default=str)[:160]))
 
     # ---- replay files, reproduced once in a fresh process (R3)
@@ -352,25 +364,25 @@ def run(prop, tier):
     with open(os.path.join(OUT, 'evidence', '%s.json' % prop), 'w') as f:
         json.dump(ev, f, indent=1, sort_keys=True, default=str)
 
-    print('%s %s: %d sub-checks, %d cases, %d evaluations, %d non-trivial, %.1fs, seed %d' % (
+    _out('%s %s: %d sub-checks, %d cases, %d evaluations, %d non-trivial, %.1fs, seed %d' % (
         prop, tier, len(per_sub), cov['cases'], cov['evaluations'], cov['distinct_nontrivial'],
         wall, seed))
     for name, s in per_sub.items():
-        print('  %-28s cases=%-9d evals=%-9d nontrivial=%-9d classes=%-4d viol=%d known=%d' % (
+        _out('  %-28s cases=%-9d evals=%-9d nontrivial=%-9d classes=%-4d viol=%d known=%d' % (
             name, s['cases'], s['evaluations'], s['nontrivial'], s['outcome_classes'], s['violations'],
             s['known_finding_cases']))
     for h in harness[:10]:
-        print('HARNESS-ERROR: ' + h)
+        _out('HARNESS-ERROR: ' + h)
     if nonrepro or (harness and not (new or total_fail > stored)):
         return 2
     if new or total_fail > stored:
         for path, fl in replay_paths:
-            print('  %s: %s' % (fl['sub'], (fl['msg'] or '')[:300]))
-            print('VIOLATION property=%s replay=%s' % (prop, path))
+            _out('  %s: %s' % (fl['sub'], (fl['msg'] or '')[:300]))
+            _out('VIOLATION property=%s replay=%s' % (prop, path))
         if total_fail > stored and not new:
-            print('VIOLATION property=%s replay=none (%d violations beyond the stored cap)' % (
+            _out('VIOLATION property=%s replay=none (%d violations beyond the stored cap)' % (
                 prop, total_fail - stored))
-        print('%s: %d unlisted violation(s) (%d total failures)' % (prop, len(seen) or 1, total_fail))
+        _out('%s: %d unlisted violation(s) (%d total failures)' % (prop, len(seen) or 1, total_fail))
         return 1
     return 0
 
